@@ -99,6 +99,19 @@ def eval_cancel(ctx):
             res[st] = f"raises {exc.kind}"
         except Unsupported as exc:
             res[st] = f"<{exc}>"
+    # the scheduler refuses the cancellation: the job is still alive, so it must stay tracked (a retry must reach the scheduler)
+    _tb, obj = tracking_backend(ctx, {"T": tok("ID"), "X": tok("IDX")}, {tok("ID"): S("RUNNING")})
+
+    def refuse(recv, jid):
+        raise Raised("BackendError", "cancel refused")
+    interp = PureInterp(ctx, hooks={"attr:cancel_job": refuse})
+    try:
+        interp.call(m, (Obj("target", name="T"),), {}, self_obj=obj)
+        res["refused"] = ("no error", dict(obj._tracked_jobs))
+    except Raised as exc:
+        res["refused"] = (exc.kind, dict(obj._tracked_jobs))
+    except Unsupported as exc:
+        res["refused"] = (f"<{exc}>", {})
     _tb, obj = tracking_backend(ctx, {"T": tok("ID")}, {})
     interp = PureInterp(ctx, hooks={"attr:cancel_job": lambda recv, jid: None})
     try:
@@ -175,13 +188,13 @@ def load_path(ctx, ckey, attr):
     return None
 
 
-def eval_call_failure(ctx):
+def eval_call_failure(ctx, err_text="sbatch: error: Batch job submission failed", ok_text="some warning"):
     """backends.utils.call over the four (exit status, 'error:' on stderr) combinations -> 'raise <kind>' / returned value."""
     fn = ctx.index.func("gwf.backends.utils:call")
     out = {}
     for rc in (0, 1):
         for err in (False, True):
-            stderr = "sbatch: error: Batch job submission failed" if err else "some warning"
+            stderr = err_text if err else ok_text
             proc = Obj("proc", returncode=rc)
             hooks = {"shutil.which": lambda name: "/usr/bin/" + str(name), "subprocess.Popen": lambda *a, **k: proc,
                      "attr:communicate": lambda recv, *a, **k: (tok("STDOUT"), stderr)}
@@ -502,6 +515,9 @@ def eval_cli_main(ctx, found=True, flag_backend=None, flag_no_color=None, config
         "gwf.utils.find_workflow": h_find, "gwf.cli.find_workflow": h_find,
         "attr:joinpath": h_join, "attr:mkdir": h_mkdir,
         "getattr:parent": lambda o: PathTok(posixpath.dirname(str(o))),
+        "attr:resolve": lambda recv, *a, **k: PathTok(tok("symlinks-resolved:" + str(recv))),
+        "attr:absolute": lambda recv, *a, **k: recv,
+        "os.path.realpath": lambda p_, *a, **k: PathTok(tok("symlinks-resolved:" + str(p_))),
         "pathlib.Path.cwd": lambda: PathTok(tok("CWD")),
         "gwf.conf.FileConfig.load": h_load,
         "gwf.cli.configure_logging": lambda *a, **k: events.append(("logging", a, k)),
